@@ -10,7 +10,7 @@ EXTENDS LayoutGC
 CC(root, tag, skip, refs, key) == [root |-> root, tag |-> tag, skip |-> skip, refs |-> refs, key |-> key]
 Base == [cp |-> [c \in Copies |-> CC("M3", "t1", {}, FALSE, "p")], gc |-> TRUE, pre |-> {}, plant |-> {},
          ckeys |-> {"p"}, okey |-> "p", faults |-> TRUE, dels |-> {}, tdels |-> {"t1"},
-         pblobs |-> {}, badput |-> FALSE, pmans |-> {}]
+         pblobs |-> {}, badput |-> FALSE, pmans |-> {}, retags |-> {}]
 Two(a, b) == [c \in Copies |-> IF c = "c1" THEN a ELSE b]
 WithGC(S) == S \cup {[x EXCEPT !.gc = FALSE] : x \in S}
 
@@ -31,7 +31,7 @@ LockConfsBig == {
 \* a copy that writes nothing (its image is already in the layout) next to a copy that writes
 NoopConfs == {
   [Base EXCEPT !.cp = Two(CC("M3", "t1", {}, FALSE, "p"), CC(r, "t2", {}, FALSE, "p")),
-               !.pre = {<<"M3", "t1">>}, !.plant = pl, !.tdels = {"t1", "t2"}]
+               !.pre = {<<"M3", "t1">>}, !.plant = pl, !.tdels = {"t1", "t2"}, !.retags = {<<"t1", "t3">>}]
     : r \in {"M4", "M1", "S1"}, pl \in {{}, {"tmp-plant", "tmp-plant-man"}} }
 
 \* graph shapes: nested index, schema1, sparse copies, referrers, pushes and deletes
@@ -39,7 +39,7 @@ ShapeConfs == WithGC({
   [Base EXCEPT !.cp = Two(CC("N1", "t1", {}, FALSE, "p"), CC("S1", "t2", {}, FALSE, "p")),
                !.tdels = {"t1", "t2"}, !.faults = FALSE],
   [Base EXCEPT !.cp = Two(CC("I1", "t1", {"M2"}, FALSE, "p"), CC("I1", "t2", {"M1"}, FALSE, "p")),
-               !.tdels = {"t1", "t2"}, !.faults = FALSE],
+               !.tdels = {"t1", "t2"}, !.retags = {<<"t1", "t3">>}, !.faults = FALSE],
   [Base EXCEPT !.cp = Two(CC("M1", "t1", {}, TRUE, "p"), CC("M3", "t2", {}, FALSE, "p")),
                !.dels = {"A1", "A2"}, !.tdels = {"t1", FB}, !.faults = FALSE],
   [Base EXCEPT !.cp = Two(CC("M1", "t1", {}, FALSE, "p"), CC("M1", "t1", {}, FALSE, "p")),
@@ -62,7 +62,8 @@ ShapeConfsGen == ShapeConfs \cup WithGC({
                !.pre = {<<"N1", "t1">>}, !.plant = {"tmp-plant", "tmp-plant-man"},
                !.dels = {"I1", "N1", "M3"}, !.tdels = {"t1", "t2", "t3"}, !.faults = FALSE],
   [Base EXCEPT !.cp = Two(CC("X1", "t1", {}, FALSE, "p"), CC("M2", "t2", {}, FALSE, "p")),
-               !.dels = {"X1", "M4"}, !.tdels = {"t1", "t2"}, !.faults = TRUE],
+               !.dels = {"X1", "M4"}, !.tdels = {"t1", "t2"}, !.retags = {<<"t1", "t2">>, <<"t2", "t3">>},
+               !.faults = TRUE],
   [Base EXCEPT !.cp = Two(CC("S1", "t1", {}, FALSE, "p"), CC("M1", "t2", {}, TRUE, "p")),
                !.pre = {<<"S1", "legacy">>}, !.pmans = {<<"A1", "art">>, <<"M3", "child">>}, !.pblobs = {"C3", "L4"},
                !.badput = TRUE, !.dels = {"S1", "A1", "A2"}, !.tdels = {"legacy", "art", "t1", FB}, !.faults = TRUE] })
